@@ -453,6 +453,8 @@ def frac_eval(m, env, memo=None):
                 raise FracUndefined()
             r = 1 / a
         elif t == "NthPower":
+            if int(x[2]) > 100000:
+                raise ValueError("frac_eval: exponent too large for exact rational arithmetic (generators cap power towers)")
             r = go(x[1]) ** int(x[2])
         else:
             raise ValueError(t)
